@@ -344,8 +344,8 @@ func diffDocs(want, got map[string]any, touched string) (key, what string) {
 		g, okg := gt[k]
 		switch {
 		case okw && !okg:
-			if s, isStr := w.(string); k == "credsStore" && isStr && s == "" {
-				return "file:credsStore-empty-dropped", "top-level key \"credsStore\": \"\" was removed from the file"
+			if s, isStr := w.(string); k == "credsStore" && (w == nil || (isStr && s == "")) {
+				return "file:credsStore-empty-dropped", fmt.Sprintf("top-level key \"credsStore\": %s was removed from the file", short(w))
 			}
 			return "file:top-level-key-lost", fmt.Sprintf("top-level key %q is gone from the file", k)
 		case !okw && okg:
@@ -622,6 +622,9 @@ func genDoc(rng *rand.Rand, o docOpts) caseDoc {
 	if o.emptyCreds {
 		// "credsStore": "" — docker treats it as absent; the library drops the key on save
 		doc["credsStore"] = ""
+		if rng.IntN(4) == 0 {
+			doc["credsStore"] = nil
+		}
 		d.HasHelpers = true
 		shape = append(shape, "emptyCredsStore")
 	} else if !o.noHelpers {
